@@ -682,8 +682,8 @@ func (c *simCluster) monitors(n *simNode) {
 // ---- crash / restart ----
 
 func (c *simCluster) crash(id uint64, emit bool) {
-	if c.cfg != nil {
-		return // the abstract protocol with membership changes has no crash step: these runs have none
+	if c.cfg != nil && !cfgCrashEnabled {
+		return // (without the crash step of Abs/CfgRaft.v these runs have no crashes)
 	}
 	n := c.nodes[id]
 	pre := ""
@@ -717,6 +717,9 @@ func (c *simCluster) crash(id uint64, emit bool) {
 	}
 	if c.abs != nil {
 		c.abs.record(c, nn, "", absHint{}, true)
+	}
+	if c.cfg != nil {
+		c.cfg.emit(c, []string{fmt.Sprintf("ACrash %d %d%%nat", id, sat1(nn.r.commitIndex))}, id)
 	}
 	c.note("n%d restarted", id)
 }
